@@ -861,6 +861,9 @@ typedef struct parser {
     expr_t	       *prs_head;	/* expression list head */
     expr_t	       *prs_tail;	/* expression list tail */
     vnaproperty_t      *prs_collection;	/* if last elem is map/list */
+    vnaproperty_t      *prs_undo_list;	/* list of first insert/append */
+    int			prs_undo_index;	/* index of inserted element */
+    size_t		prs_undo_length;/* list length before the insert */
 } parser_t;
 
 /*
@@ -877,6 +880,32 @@ static void parser_free(parser_t *parser)
     }
     free((void *)parser->prs_scn.scn_input);
     parser->prs_scn.scn_input = NULL;
+}
+
+/*
+ * parser_undo_insert: remove the element added by the first [n+] or [+]
+ *   @parser: pointer to parser state structure
+ *
+ * When a set operation fails after a list insert or append subscript
+ * has already taken effect, take the new element out again so that
+ * the failed call doesn't leave an extra element behind.  Everything
+ * the call created below the first inserted element goes with it.
+ */
+static void parser_undo_insert(parser_t *parser)
+{
+    vnaproperty_list_t *vplp = (vnaproperty_list_t *)parser->prs_undo_list;
+
+    if (vplp == NULL) {
+	return;
+    }
+    parser->prs_undo_list = NULL;
+    if ((size_t)parser->prs_undo_index < parser->prs_undo_length) {
+	(void)list_delete((vnaproperty_t *)vplp, parser->prs_undo_index);
+	return;
+    }
+    while (vplp->vpl_length > parser->prs_undo_length) {
+	(void)list_delete((vnaproperty_t *)vplp, (int)vplp->vpl_length - 1);
+    }
 }
 
 /*
@@ -1239,6 +1268,7 @@ static vnaproperty_t **parse_and_descend(parser_t *parser,
     /*
      * Parse the expression.
      */
+    parser->prs_undo_list = NULL;
     if (parse(parser, format, ap) == -1) {
 	return NULL;
     }
@@ -1358,8 +1388,18 @@ static vnaproperty_t **parse_and_descend(parser_t *parser,
 		    goto error;
 		}
 		collection = node;
-		if ((anchor = list_insert(node, exp->u.ex_index)) == NULL) {
-		    goto error;
+		{
+		    size_t old_length = ((vnaproperty_list_t *)node)->vpl_length;
+
+		    if ((anchor = list_insert(node,
+				    exp->u.ex_index)) == NULL) {
+			goto error;
+		    }
+		    if (parser->prs_undo_list == NULL) {
+			parser->prs_undo_list   = node;
+			parser->prs_undo_index  = exp->u.ex_index;
+			parser->prs_undo_length = old_length;
+		    }
 		}
 		node = *anchor;
 		continue;
@@ -1370,8 +1410,17 @@ static vnaproperty_t **parse_and_descend(parser_t *parser,
 		    goto error;
 		}
 		collection = node;
-		if ((anchor = list_append(node)) == NULL) {
-		    goto error;
+		{
+		    size_t old_length = ((vnaproperty_list_t *)node)->vpl_length;
+
+		    if ((anchor = list_append(node)) == NULL) {
+			goto error;
+		    }
+		    if (parser->prs_undo_list == NULL) {
+			parser->prs_undo_list   = node;
+			parser->prs_undo_index  = (int)old_length;
+			parser->prs_undo_length = old_length;
+		    }
 		}
 		node = *anchor;
 		continue;
@@ -1401,6 +1450,7 @@ static vnaproperty_t **parse_and_descend(parser_t *parser,
     return anchor;
 
 error:
+    parser_undo_insert(parser);
     parser_free(parser);
     return NULL;
 }
@@ -1698,6 +1748,9 @@ int vnaproperty_vset(vnaproperty_t **rootptr, const char *format, va_list ap)
     rv = 0;
 
 out:
+    if (rv == -1) {
+	parser_undo_insert(&parser);
+    }
     parser_free(&parser);
     return rv;
 }
